@@ -352,6 +352,19 @@ PFirstBad(s, i, b, alpha) ==
 StrFirstBad(s, b, alpha) == PFirstBad(s, 1, b, alpha)
 
 
+
+(* statistics helpers over a sequence of non-negative integers (random draws) *)
+RECURSIVE PCountBit(_, _, _)
+PCountBit(seq, bit, i) == IF i > Len(seq) THEN 0 ELSE (IF ZTestBit(seq[i], bit) THEN 1 ELSE 0) + PCountBit(seq, bit, i + 1)
+SeqBitOnes(seq, bit) == PCountBit(seq, bit, 1)                         \* number of draws with that bit set
+RECURSIVE PCountAgree(_, _, _, _)
+PCountAgree(seq, bit, lag, i) == IF i + lag > Len(seq) THEN 0
+                                 ELSE (IF ZTestBit(seq[i], bit) = ZTestBit(seq[i + lag], bit) THEN 1 ELSE 0) + PCountAgree(seq, bit, lag, i + 1)
+SeqBitAgree(seq, bit, lag) == PCountAgree(seq, bit, lag, 1)            \* number of t with bit(draw t) = bit(draw t+lag)
+RECURSIVE PCountBucket(_, _, _, _)
+PCountBucket(seq, shift, b, i) == IF i > Len(seq) THEN 0 ELSE (IF ZShr(seq[i], shift) = b THEN 1 ELSE 0) + PCountBucket(seq, shift, b, i + 1)
+SeqBucket(seq, shift, b) == PCountBucket(seq, shift, b, 1)             \* number of draws whose value >> shift equals numeral b
+
 (* string helpers for the number grammar: remove every white-space character; fold ASCII upper case to lower case *)
 LOCAL WSChars == {" ", "\t", "\n", "\r", "\f"}
 RECURSIVE PStripWS(_, _)
